@@ -93,6 +93,13 @@ def cases(spec, ctx):
     for k in range(49):
         if k % nsh == spec["shard"] % nsh:
             yield {"recipe": _wavelet_sweep_case(k), "light": True, "heavy": False}
+    # ... and every pair of different wavelets WITHOUT a horizontal-only level (the second index is then signalled by
+    # asym_transform_index_flag alone and has no effect on the pictures)
+    for k in range(49):
+        if k // 7 != k % 7 and (k + 5) % nsh == spec["shard"] % nsh:
+            r = _wavelet_sweep_case(k)
+            r.update(dh=0, qm={"0": {"LL": 0}, "1": {"HL": 1, "LH": 1, "HH": 2}}, index_only=True)
+            yield {"recipe": r, "light": True, "heavy": False}
     if spec["shard"] % 8 == 0:
         yield {"recipe": _level_case(ctx.rng), "light": True, "heavy": False}
     for i in range(spec["n"]):
@@ -116,7 +123,7 @@ def cases(spec, ctx):
             n = r["sx"] * r["sy"]
             # byte budgets with every remainder modulo the slice count (slice sizes then differ between slices)
             rem = ctx.rng.randrange(n)
-            r["pb"] = (ctx.rng.choice([n * 8, n * 20, n * 64]) if r["profile"] == 3 else ctx.rng.choice([n * 4, n * 9, n * 12, n * 40])) + rem
+            r["pb"] = (ctx.rng.choice([n * 8, n * 20, n * 64]) if r["profile"] == 3 else ctx.rng.choice([n * 2, n * 3, n * 4, n * 9, n * 12, n * 40])) + rem
         # the signal-range generator (bit-width test patterns) costs about half of a configuration's time and is
         # judged for validity only: it is run for one configuration in three
         yield {"recipe": r, "heavy": ctx.rng.random() < 0.34}
@@ -177,7 +184,7 @@ def run_case(case, ctx):
         ctx.violation("duplicate-test-case-name", "test case names are not unique: %r" % (dup[:5],))
     ctx.count("configurations")
     if case.get("light"):
-        ctx.count("light_configurations:" + ("level-%d" % recipe["level"] if recipe["level"] else "sibling" if recipe.get("sibling_of") else "wavelet-pair-sweep"))
+        ctx.count("light_configurations:" + ("level-%d" % recipe["level"] if recipe["level"] else "sibling" if recipe.get("sibling_of") else "wavelet-index-only-sweep" if recipe.get("index_only") else "wavelet-pair-sweep"))
         ctx.note("wavelet_pairs_swept", "%d/%d" % (recipe["wi"], recipe["wih"]))
     ctx.count("stratum:" + configs.stratum(recipe))
     if ctx.rng.random() < 0.05:
